@@ -469,6 +469,95 @@ func (m c14) Case(c *Ctx, r *RNG) {
 	}
 }
 
+// ambiguity: for a two-way relationship R2 = (t1.n1 <-> t2.n2) whose names contain a separator, every OTHER way of
+// cutting the joined text "t1<sep>n1<sep>t2<sep>n2" into a one-way relationship (type, name) or a two-way one
+// (4 parts) is added first; then R2 is added. The names R2 needs are free (unless the cut coincides with R2's own
+// ends), so AddTwoWayRel must succeed: nothing may identify a relationship by its joined names.
+func (m c14) ambiguity(c *Ctx) {
+	at := func(n string) c14op {
+		return c14op{Op: "AddType", NewT: &mType{Name: n, Attrs: map[string]jsonapi.Attr{}, Rels: map[string]jsonapi.Rel{}}}
+	}
+	n := 0
+	for _, sep := range []string{"_", " ", ""} {
+		atoms := []string{"a", "b", "a" + sep + "b", "b" + sep + "c"}
+		if sep == "" {
+			atoms = []string{"a", "b", "ab", "ba"}
+		}
+		for _, t1 := range atoms {
+			for _, n1 := range atoms {
+				for _, t2 := range atoms {
+					for _, n2 := range atoms {
+						if t1 == t2 && n1 == n2 {
+							continue // its own inverse: outside the domain
+						}
+						r2 := jsonapi.Rel{FromType: t1, FromName: n1, ToType: t2, ToName: n2, ToOne: (len(t1)+len(n2))%2 == 0}
+						joined := strings.Join([]string{t1, n1, t2, n2}, sep)
+						var cuts []int // positions where a separator starts
+						if sep == "" {
+							for i := 1; i < len(joined); i++ {
+								cuts = append(cuts, i)
+							}
+						} else {
+							for i := 0; i+len(sep) <= len(joined); i++ {
+								if joined[i:i+len(sep)] == sep {
+									cuts = append(cuts, i)
+								}
+							}
+						}
+						var alts []jsonapi.Rel
+						for _, a := range cuts {
+							alts = append(alts, jsonapi.Rel{FromType: joined[:a], FromName: joined[a+len(sep):], ToType: t2})
+						}
+						for i := 0; i < len(cuts); i++ {
+							for j := i + 1; j < len(cuts); j++ {
+								for k := j + 1; k < len(cuts); k++ {
+									a, b, d := cuts[i], cuts[j], cuts[k]
+									if a+len(sep) > b || b+len(sep) > d {
+										continue
+									}
+									alt := jsonapi.Rel{FromType: joined[:a], FromName: joined[a+len(sep) : b], ToType: joined[b+len(sep) : d], ToName: joined[d+len(sep):]}
+									if alt.FromType == t1 && alt.FromName == n1 && alt.ToType == t2 && alt.ToName == n2 {
+										continue
+									}
+									alts = append(alts, alt)
+								}
+							}
+						}
+						for ai, alt := range alts {
+							if alt.FromType == "" || alt.FromName == "" || alt.ToType == "" || (n%7 != 0 && ai > 3) {
+								continue
+							}
+							if alt.ToName != "" && alt.FromType == alt.ToType && alt.FromName == alt.ToName {
+								continue
+							}
+							ops := []c14op{}
+							seen := map[string]bool{}
+							for _, tn := range []string{t1, t2, alt.FromType, alt.ToType} {
+								if !seen[tn] {
+									seen[tn] = true
+									ops = append(ops, at(tn))
+								}
+							}
+							alt := alt
+							if alt.ToName == "" {
+								ops = append(ops, c14op{Op: "AddRel", Type: alt.FromType, Rel: &alt})
+							} else {
+								ops = append(ops, c14op{Op: "AddTwoWayRel", Rel: &alt})
+							}
+							r2 := r2
+							ops = append(ops, c14op{Op: "AddTwoWayRel", Rel: &r2})
+							c.Name = fmt.Sprintf("ambiguity-%q-%d", sep, n)
+							m.historyMode(c, ops, n%2 == 0)
+							n++
+						}
+					}
+				}
+			}
+		}
+	}
+	c.Counters["ambiguity_histories"] += int64(n)
+}
+
 func (m c14) Directed(c *Ctx) {
 	at := func(n string) c14op {
 		return c14op{Op: "AddType", NewT: &mType{Name: n, Attrs: map[string]jsonapi.Attr{}, Rels: map[string]jsonapi.Rel{}}}
@@ -486,6 +575,7 @@ func (m c14) Directed(c *Ctx) {
 	c.Name = "witness-twoway-second-name-taken"
 	m.history(c, []c14op{at("a"), at("b"), {Op: "AddRel", Type: "b", Rel: &jsonapi.Rel{FromType: "b", FromName: "ab", ToType: "a"}},
 		{Op: "AddTwoWayRel", Rel: &jsonapi.Rel{FromType: "a", FromName: "f", ToType: "b", ToName: "ab"}}})
+	m.ambiguity(c)
 	c.Name = "witness-invalid-kind-nullable"
 	m.history(c, []c14op{at("a"), {Op: "AddAttr", Type: "a", Attr: &jsonapi.Attr{Name: "f", Type: 99, Nullable: true}}})
 	_ = sort.Strings
